@@ -90,6 +90,7 @@ _PYLOG = []          # NetQASM/SimulaQron `logging` records >= WARNING, as (leve
 _UNRAISABLE = []     # generators of abandoned operations that ignored GeneratorExit when collected
 _LIVE = None         # the live SimNet
 _CFG_DIR = None
+_CFG_PID = None
 _CFG_CACHE = {}
 _UNSET = object()
 
@@ -225,7 +226,11 @@ def _boot():
 def _config_file(names, topology):
     """network.json for these node names (cached per process, in a temp dir
     outside /repo and /verif)."""
-    global _CFG_DIR
+    global _CFG_DIR, _CFG_PID
+    if _CFG_PID != os.getpid():
+        # forked worker (process pools): never share file names with the parent or siblings
+        _CFG_DIR, _CFG_PID = None, os.getpid()
+        _CFG_CACHE.clear()
     key = json.dumps([list(names), topology], sort_keys=True)
     fn = _CFG_CACHE.get(key)
     if fn and os.path.exists(fn):
@@ -243,8 +248,9 @@ def _config_file(names, topology):
                                   for i, n in enumerate(names)},
                        "topology": topology}}
     fn = os.path.join(_CFG_DIR, "network_%d.json" % len(_CFG_CACHE))
-    with open(fn, "w") as f:
+    with open(fn + ".tmp", "w") as f:
         json.dump(cfg, f)
+    os.replace(fn + ".tmp", fn)
     _CFG_CACHE[key] = fn
     return fn
 
